@@ -191,3 +191,26 @@ func (k *Key) Public() interface{} {
 }
 
 func (k *Key) String() string { return fmt.Sprintf("%s/%s", k.Type, k.Name) }
+
+// ShortCoordKey returns a deterministic EC key of the given type whose X (which=="x") or Y coordinate has a leading
+// zero byte when written at full width (big.Int.Bytes() is one byte shorter); found by scanning key names.
+func ShortCoordKey(kt, which string) *Key { return ShortCoordKeyN(kt, which, 0) }
+
+// ShortCoordKeyN returns the n-th such key.
+func ShortCoordKeyN(kt, which string, n int) *Key {
+	for i := 0; ; i++ {
+		k := NewKey(kt, "short-"+which+"/"+itoa(i))
+		c := k.EC.X
+		if which == "y" {
+			c = k.EC.Y
+		}
+		if len(c.Bytes()) < CoordSize(kt) {
+			if n == 0 {
+				return k
+			}
+			n--
+		}
+	}
+}
+
+func itoa(i int) string { return fmt.Sprintf("%d", i) }
